@@ -179,6 +179,76 @@ def job_sub(ctx, mode, ra, rb, ranges=None, tzh=(-14, 14), near=(-1, 1), pins=No
                    sample_every=500)
 
 
+def job_sub_decimal_hour(ctx, mode, hh, ff, ranges=None):
+    """a is written as hh,ff hours with a *non-dyadic* two-digit fraction: its time of day is a concrete Python float, so the
+    library's own float arithmetic on it (hour -> minute -> second split) runs for real; the dates, the shared UTC
+    offset and b's whole-second time are symbolic.  The float enters the symbolic differences as the exact rational it
+    is.  Obligations: the field ranges of a - b and b - a (strict: |s| < 60), one sign, and the length within a
+    microsecond of the distance of the instants (a's time taken as the decimal number written)."""
+    data = ctx.data
+    C.set_mode(data, mode)
+    install_range_summary(data, mode)
+    us_a = (hh * 100 + ff) * 36000000        # a's time of day in microseconds, exactly
+    # stated assumption: once the library's float split of hh,ff has produced its (float) second, the few additions and
+    # subtractions of small integers that follow are taken as exact (their rounding is < 1e-13 s, far below both the
+    # microsecond tolerance and the distance of any such second from 0 or 60, which is a multiple of ulp(hh.ff * 3600) ~ 1e-11)
+    core.LONG_FRACTIONS[0] = True
+
+    def make(e):
+        a = C.point_input(e, data, "a", "ord", tzh=(-14, 14), hmax=23)
+        b = C.point_input(e, data, "b", "ord", tzh=(-14, 14), hmax=23)
+        b._year = a._year + e.var("dy", -1, 1)
+        b._time_zone = C.raw_timezone(data, a._time_zone._hours, a._time_zone._minutes)
+        i = {"a": a, "b": b, "pre": z3.And(C.m_valid_point(mode, a, "ord", False), C.m_valid_point(mode, b, "ord", False))}
+        a._hour_of_day = hh + float("0.%02d" % ff)       # what the constructor builds for hour_of_day_decimal
+        a._minute_of_hour = a._second_of_minute = None
+        return i
+
+    def pre(i):
+        return i["pre"]
+
+    def body(i):
+        a, b = i["a"], i["b"]
+        return {"d": a - b, "rev": b - a}
+
+    def obligations(d, lab, expect_us):
+        parts = (d._years, d._months, d._days, d._hours, d._minutes, d._seconds)
+        if d._weeks is not None or any(x is None for x in parts):
+            return [(lab + ": days/hours/minutes/seconds form", False)]
+        y, mo, dd, h, mi, sec = parts
+        zb = lambda c: core.zbool(c)[0]
+        total_us = (((dd * 24 + h) * 60 + mi) * 60 + sec) * 1000000
+        err = total_us - expect_us
+        return [(lab + ": no years or months", z3.And(zb(y == 0), zb(mo == 0))),
+                (lab + ": one sign throughout", z3.Or(z3.And(zb(dd >= 0), zb(h >= 0), zb(mi >= 0), zb(sec >= 0)),
+                                                      z3.And(zb(dd <= 0), zb(h <= 0), zb(mi <= 0), zb(sec <= 0)))),
+                (lab + ": |h| < 24, |m| < 60, |s| < 60", z3.And(zb(h > -24), zb(h < 24), zb(mi > -60), zb(mi < 60), zb(sec > -60), zb(sec < 60))),
+                (lab + ": length within a microsecond of the distance of the instants", z3.And(zb(err <= 1), zb(err >= -1)))]
+
+    def post(i, out):
+        if out[0] != "ok":
+            return [("no exception", False)]
+        a, b, o = i["a"], i["b"], out[1]
+        day_a = C.m_daynum(mode, "ord", C.fields_of(a, "ord"))
+        day_b = C.m_daynum(mode, "ord", C.fields_of(b, "ord"))
+        tb = b._hour_of_day * 3600 + b._minute_of_hour * 60 + b._second_of_minute
+        dist_us = (day_a - day_b) * 86400000000 + us_a - tb * 1000000        # same UTC offset on both sides
+        return obligations(o["d"], "a - b", dist_us) + obligations(o["rev"], "b - a", -dist_us)
+
+    def case_of(v, i):
+        pa, pb = C.point_case(v, "a", "ord"), C.point_case(v, "b", "ord")
+        pb["year"] = C.year_value(v, "a") + v["dy"]
+        pb["time_zone_hour"], pb["time_zone_minute"] = pa["time_zone_hour"], pa["time_zone_minute"]
+        pa.pop("minute_of_hour"), pa.pop("second_of_minute")
+        pa["hour_of_day"], pa["hour_of_day_decimal"] = hh, float("0.%02d" % ff)
+        return {"check": "sub-decimal-hour", "mode": mode, "a": pa, "b": pb}
+
+    return sym_run("sub-decimal-hour[%s,%02d,%02d,%s]" % (mode, hh, ff, ranges), make, pre, body, post, case_of, ranges=ranges,
+                   scenarios_z3=lambda i: {"non-dyadic decimal hour, b on a whole minute": L(i["b"]._second_of_minute) == 0},
+                   bounds={"a": "%02d,%02d hours (concrete float), any ordinal date" % (hh, ff), "b": "whole seconds, same UTC offset, year within +-1"},
+                   sample_every=200)
+
+
 def job_addsub(ctx, mode, rep, unit, nlo, nhi, ranges=None, tzh=(-14, 14)):
     """(p + d) - p == d for exact d"""
     data = ctx.data
@@ -235,6 +305,25 @@ def replay(case, M):
     mode = case["mode"]
     data.CALENDAR.set_mode(mode)
     try:
+        if case["check"] == "sub-decimal-hour":
+            from fractions import Fraction
+            a, b = C.build_point(data, case["a"]), C.build_point(data, case["b"])
+            ka = case["a"]
+            ia = C.py_daynum(mode, a) * 86400 + (Fraction(ka["hour_of_day"]) + Fraction(str(ka["hour_of_day_decimal"]))) * 3600
+            ib = C.py_daynum(mode, b) * 86400 + b._hour_of_day * 3600 + b._minute_of_hour * 60 + b._second_of_minute
+            for lab, d, want in (("a - b", a - b, ia - ib), ("b - a", b - a, ib - ia)):
+                desc = "%s for a = %s, b = %s is %s" % (lab, C.describe_point(a), C.describe_point(b), d)
+                parts = (d._days, d._hours, d._minutes, d._seconds)
+                if d._weeks is not None or d._years or d._months:
+                    return True, desc + ": not a days/hours/minutes/seconds duration"
+                if not (all(x >= 0 for x in parts) or all(x <= 0 for x in parts)):
+                    return True, desc + ": mixed signs"
+                if not (abs(d._hours) < 24 and abs(d._minutes) < 60 and abs(d._seconds) < 60):
+                    return True, desc + ": a field is outside 0<=h<24, 0<=m<60, 0<=s<60 (seconds = %r)" % (d._seconds,)
+                length = ((Fraction(d._days) * 24 + Fraction(d._hours)) * 60 + Fraction(d._minutes)) * 60 + Fraction(d._seconds)
+                if abs(length - want) > Fraction(1, 1000000):
+                    return True, desc + ": length %s s, the instants are %s s apart" % (float(length), float(want))
+            return False, "a - b = %s" % (a - b)
         if case["check"] == "addsub":
             from .c01 import MULT
             p = C.build_point(data, case["p"])
@@ -322,6 +411,11 @@ def jobs(tier):
                     J.append(("job_sub", dict(mode=mode, ra="ord", rb="ord", ranges=rg, dec=dec, anti=True, samezone=True, tzh=(-99, 99))))
                     J.append(("job_sub", dict(mode=mode, ra="ord", rb="ord", ranges=rg, dec=dec, tzh=(-2, 2), tzm=(0, 0))))
         if greg or th:
+            # a written as hh,ff hours with a non-dyadic fraction (the library's float split runs on the real float)
+            for hh, ff in ((12, 10), (12, 35), (7, 5), (7, 60), (7, 85), (23, 99), (0, 1), (12, 20), (19, 70)):
+                J.append(("job_sub_decimal_hour", dict(mode=mode, hh=hh, ff=ff, ranges={"DOYa": (1, 2), "DOYb": last_days(mode)})))
+                J.append(("job_sub_decimal_hour", dict(mode=mode, hh=hh, ff=ff, ranges={"DOYa": last_days(mode), "DOYb": (1, 2), "hb": (0, 12)})))
+        if greg or th:
             wz = {("week", "ord"): HOURS, ("ord", "week"): SAME, ("week", "cal"): SAME, ("cal", "week"): HOURS,
                   ("week", "week"): HOURS}
             for (ra, rb), zc in wz.items():
@@ -357,9 +451,10 @@ INFO = {
                          "round trips": "anti-symmetry and b + (a - b): ordinal, first/last days of the year, whole-hour offsets +-3; (p + d) - p: ordinal days 1-3 / last two, d in days +-400, hours +-50, seconds +-90000",
                          "modes": "gregorian, 360day"},
                "thorough": {"modes": "all 4", "offsets": "additionally independent offsets -14:59..+14:59 (ordinal pairs, gregorian)", "dates": "all 9 window pairs for same-representation pairs in gregorian, year residues 0, 104, 399 for week dates"}},
-    "outside": ["fractional seconds; decimal forms other than hh,ii / hh:mm,nn with the fractions .25 .5 .75 on ordinal dates around New Year (same zone or whole-hour offsets +-2), which are decided exactly", "operands whose offsets differ in both hours and minutes (quick tier); the zone conversion itself is C06's subject", "operand dates outside the stated windows for the mixed-representation pairs",
+    "outside": ["fractional seconds; decimal forms other than hh,ii / hh:mm,nn with the fractions .25 .5 .75 on ordinal dates around New Year (same zone or whole-hour offsets +-2), which are decided exactly, and nine hh,ff decimal-hour values with non-dyadic fractions (concrete float time of day, symbolic dates / offset / other operand; same UTC offset) for the field ranges and the length within a microsecond", "operands whose offsets differ in both hours and minutes (quick tier); the zone conversion itself is C06's subject", "operand dates outside the stated windows for the mixed-representation pairs",
                 "distances of thousands of years other than the three pinned cycle-index pairs"],
-    "assumptions": ["get_days_in_year_range runs as its closed form (discharged by C03 in the same source state)"],
+    "assumptions": ["get_days_in_year_range runs as its closed form (discharged by C03 in the same source state)",
+                    "job_sub_decimal_hour: after the library's own float split of hh,ff into h/m/s (run on the real double), the additions and subtractions of small integers that follow are treated as exact (their rounding is below 1e-13 s)"],
 }
 REQUIRED_SCENARIOS = {"all": ["decimal-form operand, a earlier", "decimal-form operand, a later", "24:00 operand", "a earlier than b", "a later than b", "same instant, different zones",
-                              "negative year", "addsub negative"]}
+                              "negative year", "addsub negative", "non-dyadic decimal hour, b on a whole minute"]}
